@@ -340,6 +340,11 @@ func pagingCheck(env *Env, w *world.World, db *sql.DB, api *API) *Violation {
 			rows.Scan(&hsh, &c)
 			qs = append(qs, q{params: map[string]interface{}{"entryhash": hex.EncodeToString(hsh)},
 				sql: `SELECT COUNT(*) FROM pn_history_txbatch b, pn_history_transaction t WHERE b.entry_hash = t.entry_hash AND b.entry_hash = ? %s`, arg: hsh})
+			// one transaction of the batch, by transaction id ("index-hash")
+			for _, idx := range []int{0, c - 1} {
+				qs = append(qs, q{params: map[string]interface{}{"txid": fmt.Sprintf("%d-%s", idx, hex.EncodeToString(hsh))},
+					sql: fmt.Sprintf(`SELECT COUNT(*) FROM pn_history_txbatch b, pn_history_transaction t WHERE b.entry_hash = t.entry_hash AND b.entry_hash = ? AND t.tx_index = %d %%s`, idx), arg: hsh})
+			}
 		}
 		rows.Close()
 	}
